@@ -63,7 +63,7 @@ Theorem initAlgorithms_admissible l1 maxKB start stop :
   a_maxSmall a <= a_maxMedium a /\ a_maxMedium a <= N.sqrt stop /\
   (a_bigUsed a = true -> isPow2 (a_sieveSize a) = true /\ 16384 <= a_sieveSize a) /\
   a_segLow a mod 30 = 0 /\ a_segLow a + 7 <= start /\ start <= a_segLow a + 36 /\
-  a_segHigh a <= stop.
+  a_segHigh a <= stop /\ a_segHigh a = N.min (a_segLow a + 30 * a_sieveSize a + 6) stop.
 Proof.
   intros HK1 HK2 Hst1 Hst2 Hst3. destruct cfg_values as (F1 & F2 & F3 & F4 & F5 & F6).
   unfold initAlgorithms. rewrite F1, F2, F3, F4, F5, F6. cbn zeta.
@@ -120,5 +120,14 @@ Proof.
   split; [tauto|]. split; [tauto|]. split; [tauto|]. split; [tauto|]. split; [tauto|].
   split.
   { intros Hb. destruct Hs3 as (G1 & _ & _ & Hp). specialize (Hp Hb). destruct Hs4 as (_ & _ & _ & E). rewrite (E (Hnt Hb)). split; [exact Hp|exact G1]. }
-  split; [tauto|]. split; [lia|]. split; [lia|]. subst segHigh. lia.
+  split; [tauto|]. split; [lia|]. split; [lia|]. split; [subst segHigh; lia|].
+  pose proof (checkedAdd_min segLow (s3 * 30 + 6) ltac:(subst segLow; lia)) as Hca.
+  subst s4. destruct tiny eqn:Et.
+  - subst tiny. apply andb_true_iff in Et. destruct Et as [Et _]. apply N.leb_le in Et.
+    pose proof (ceil8_spec ((stop - byteRemainder stop - segLow) / 30 + 1)) as (C1 & C2 & C3).
+    assert (Hh : segHigh = stop) by (subst segHigh; lia). rewrite Hh.
+    assert (stop <= segLow + 30 * ceil8 ((stop - byteRemainder stop - segLow) / 30 + 1) + 6).
+    { unfold byteRemainder in *. clear - C2 Hrem Hst2. generalize dependent (ceil8 ((stop - ((stop - 7) mod 30 + 7) - segLow) / 30 + 1)). intros. subst segLow. lia. }
+    lia.
+  - subst segHigh. rewrite Hca. lia.
 Qed.
